@@ -21,7 +21,9 @@ def _key(first, events, matched):
         region = next((e["region"] for e in reversed(events[:matched]) if e["ev"] == "corrupt"), "?")
         return "parse/%s/%s-bitflip" % (first.get("entry"), region)
     if ev == "roundtrip":
-        return "roundtrip/%s" % first.get("entry")
+        # size class: the base58 crate decodes into a fixed 132-byte buffer
+        big = "/over-132-bytes" if first.get("len", 0) > 132 else ""
+        return "roundtrip/%s%s" % (first.get("entry"), big)
     return "%s" % ev
 
 
@@ -82,7 +84,7 @@ def run(ctx):
         vlib.write_ndjson(path, cur)
 
     # binding self-test (on a short prefix): a wrong checksum on an accepted parse / a dropped learn event
-    if not ctx.violations and not ctx.known_hits:
+    if not ctx.violations:
         idx = next(i for i, e in enumerate(events) if e["ev"] == "roundtrip")
         cut = [dict(e) for e in events[: idx + 10]]
         c1 = [dict(e) for e in cut]
